@@ -733,12 +733,13 @@ func lexBlankNode(l *lexer) stateFn {
 func lexPredicateOrLiteral(l *lexer) stateFn {
 	text := l.input[l.pos:]
 	// Fix issue 39 (https://github.com/google/badwolf/issues/39)
-	pIdx, lIdx := strings.Index(text, "\"@["), strings.Index(text, "\"^^type:")
+	// The closing delimiter is searched after the opening quote: an ID or a text may itself start with @[ or ^^type:.
+	pIdx, lIdx := strings.Index(text[1:], "\"@["), strings.Index(text[1:], "\"^^type:")
 	if pIdx < 0 && lIdx < 0 {
 		l.emitError("failed to parse predicate or literal for opening \" delimiter")
 		return nil
 	}
-	if pIdx > 0 && (lIdx < 0 || pIdx < lIdx) {
+	if pIdx >= 0 && (lIdx < 0 || pIdx < lIdx) {
 		return lexPredicate
 	}
 	return lexLiteral
